@@ -38,8 +38,10 @@ class View:
             def fn(where):
                 parts = where.split(' ')
                 return parts[1] if len(parts) > 1 else ''
-            self.obligations = [o for o in rr.obligations if props.in_scope(scope, fn(o['where']))]
-            self.findings = [f for f in rr.findings if props.in_scope(scope, f.func)]
+            def pth(where):
+                return where.split(' ')[0].rsplit(':', 1)[0]
+            self.obligations = [o for o in rr.obligations if props.in_scope(scope, fn(o['where']), pth(o['where']))]
+            self.findings = [f for f in rr.findings if props.in_scope(scope, f.func, f.path)]
             self.info = dict(rr.info, scope=scope)
 
 
@@ -69,8 +71,16 @@ def main(argv=None):
         spec = props.PROPS[args.prop]
         ctx = Ctx(args.repo, tier=args.tier)
         results = []
+        rule_errors = []
         for rname, scope in spec['rules']:
-            results.append(props_view(run_rule(ctx, rname), scope, props))
+            try:
+                results.append(props_view(run_rule(ctx, rname), scope, props))
+            except AnalysisError as e:
+                # a breach of the call-graph assumptions invalidates every verdict; any other rule that cannot conclude
+                # leaves the verdicts of the rules that can untouched
+                if rname == 'R-STATIC-SHAPE':
+                    raise
+                rule_errors.append((rname, str(e)))
         selfval = None
         if args.tier == 'thorough':
             from . import selfval as sv
@@ -113,6 +123,10 @@ def main(argv=None):
             for p in selfval['problems']:
                 print('ANALYSIS-ERROR self-validation: %s' % p)
             rc = 2
+    for rname, msg in rule_errors:
+        print('ANALYSIS-ERROR property=%s rule %s gives no verdict: %s' % (args.prop, rname, msg))
+    if rule_errors:
+        rc = 2
     if new:
         os.makedirs(os.path.join(HERE, 'out'), exist_ok=True)
         rp = os.path.join(HERE, 'out', '%s.violation.json' % args.prop)
@@ -141,6 +155,7 @@ def main(argv=None):
                              'call_sites': tot, 'call_sites_resolved': res, 'inference_rounds': P.rounds,
                              'unresolved_external_calls': len(unres)},
                 'known_findings_reported': [f.to_json() for f in kn],
+                'rules_without_verdict': [{'rule': r_, 'reason': m_} for r_, m_ in rule_errors],
                 'exhaustive': True,
             },
             'assumptions': props.ASSUMPTIONS,
